@@ -179,6 +179,12 @@ class CallGraph:
                 if not rt and n.attr in self._prop_names:
                     for m in self._prop_names[n.attr]:
                         self._add(f, "name", m, n)
+                # bound method of a typed receiver used as a value: self._id_validator.verify_tag_id
+                if rt and not (isinstance(n.value, ast.Name) and n.value.id in ("self", "cls")):
+                    for c in rt:
+                        for m in self._methods_on(c, n.attr):
+                            if "property" not in m.decorator_names():
+                                self._add(f, "ref", m, n)
             if isinstance(n, (ast.Name, ast.Attribute)) and isinstance(getattr(n, "ctx", None), ast.Load) \
                     and id(n) not in call_funcs:
                 r = prog.resolve_expr(n, f.module, f.cls, f)
